@@ -74,7 +74,15 @@ def run(cfg, V):
             dv, du = info.default_value, info.default_unit
             res = {}
             res["scalar"] = _all_equal([Scalar(c), Scalar(dv, du, c), Scalar(c, dv, du), Scalar(ObtainQuantity(du, c)), Scalar(ObtainQuantity(du, c), dv)])
+            first = Array(c)
+            first.values.append(v)  # the caller fills the default container of the first object ...
+            first.values.append(w)
+            # ... which must not show up in objects built from the category afterwards
             res["array"] = _all_equal([Array(c), Array([], du, c), Array(c, [], du), Array(ObtainQuantity(du, c)), Array(ObtainQuantity(du, c), [])])
+            res["array_fresh"] = len(Array(c).values) == 0 and len(Array(ObtainQuantity(du, c)).values) == 0 and len(first.values) == 2
+            f1 = FixedArray(3, c)
+            f1.values[0] = v
+            res["fixed_fresh"] = FixedArray(3, c) == FixedArray(3, c, [0.0] * 3, du)
             res["fixed"] = _all_equal([FixedArray(3, c), FixedArray(3, [0.0] * 3, du, c) if False else FixedArray(3, c, [0.0] * 3, du), FixedArray(3, ObtainQuantity(du, c)),
                                        FixedArray(3, ObtainQuantity(du, c), [0.0] * 3)])
             res["fraction"] = _all_equal([FractionScalar(c), FractionScalar(c, dv, du), FractionScalar(dv, du, c), FractionScalar(ObtainQuantity(du, c), dv)])
@@ -150,7 +158,7 @@ def props(cfg, T, obs):
         return [("a unit without any default category is rejected with UnitsError, not built inconsistently", obs["nocat_exc"] in ("UnitsError", "InvalidUnitError", "InvalidQuantityTypeError"))]
     if cfg["k"] == "cat":
         return [("Scalar(category) == Scalar(default value, default unit, category) in every form", obs["scalar"] == []),
-                ("Array(category) forms equal", obs["array"] == []), ("FixedArray(n, category) forms equal", obs["fixed"] == []),
+                ("Array(category) forms equal", obs["array"] == []), ("default containers are not shared between objects", bool(obs["array_fresh"]) and bool(obs["fixed_fresh"])), ("FixedArray(n, category) forms equal", obs["fixed"] == []),
                 ("FractionScalar(category) forms equal", obs["fraction"] == []), ("category-alone object carries default unit/category/value", all(obs["meta"]))]
     P = [("Scalar forms build equal objects", obs["bad"]["scalar"] == []), ("Array forms build equal objects", obs["bad"]["array"] == []),
          ("FixedArray forms build equal objects", obs["bad"]["fixed"] == []), ("FractionScalar forms build equal objects", obs["bad"]["fraction"] == []),
